@@ -551,7 +551,21 @@ class SeriesOps:
                 return dict(a0)
             if isinstance(a0, tuple) and a0 and a0[0] == "zip":
                 return ("dictzip",) + tuple(a0[1])
+            if conc is not None and all(isinstance(x, PyTuple) and len(x.items) == 2 for x in conc):
+                return {I._hashable(x.items[0]): x.items[1] for x in conc}          # dict(iterable of (key, value) pairs)
             return ("dict", to_term(a0))
+        if fn == "filter" and len(pos) == 2 and I._concrete_seq(pos[1]) is not None and isinstance(pos[0], FuncRef):
+            # filter(f, xs) over a concrete sequence whose tests are all decided: the kept elements in order
+            kept, decided = [], True
+            for x in I._concrete_seq(pos[1]):
+                c = I.truth(self.M.invoke(pos[0], [x], {}, node, "filter-callee"))
+                if not T.is_const(c):
+                    decided = False
+                    break
+                if c[1]:
+                    kept.append(x)
+            if decided:
+                return kept
         if fn == "map" and len(pos) >= 2 and all(I._concrete_seq(p) is not None for p in pos[1:]) and isinstance(pos[0], (FuncRef, Obj, ClassRef)):
             # map(f, xs) over concrete sequences: the list of f's results (laziness is not modelled; callers only iterate it once)
             seqs = [I._concrete_seq(p) for p in pos[1:]]
